@@ -89,10 +89,12 @@ func newHostTable() HostTable {
 func (h *Session) printHostTable() {
 	count := 0
 	for _, v := range h.MACTable.Table {
+		v.Row.RLock() // host fields are updated under the row lock
 		for _, host := range v.HostList {
 			Logger.Msg("host").Struct(host).Write()
 			count++
 		}
+		v.Row.RUnlock()
 	}
 	if count != len(h.HostTable.Table) { // validate our logic - DELETE and replace with test in future
 		panic(fmt.Sprintf("host table differ in lenght hosts=%d machosts=%d  ", len(h.HostTable.Table), count))
